@@ -145,12 +145,19 @@ func main() {
 
 func loadProps() map[string]PropSpec {
 	props := map[string]PropSpec{}
-	b, err := os.ReadFile(filepath.Join(*flagHarness, "props.json"))
-	if err != nil {
-		return props
-	}
-	if err := json.Unmarshal(b, &props); err != nil {
-		die(2, "ERROR props.json: %v", err)
+	files, _ := filepath.Glob(filepath.Join(*flagHarness, "props.d", "*.json"))
+	for _, f := range files {
+		b, err := os.ReadFile(f)
+		if err != nil {
+			die(2, "ERROR %s: %v", f, err)
+		}
+		one := map[string]PropSpec{}
+		if err := json.Unmarshal(b, &one); err != nil {
+			die(2, "ERROR %s: %v", f, err)
+		}
+		for k, v := range one {
+			props[k] = v
+		}
 	}
 	return props
 }
